@@ -38,9 +38,9 @@ TOLERANCES = {
 EXHAUSTIVE = {"quick": False, "thorough": False}
 EXHAUSTIVE_PART = "none (sampled)"
 FLOORS = {
-    "quick": {"law.height": 1500, "law.contiguity": 1500, "law.grid": 1500, "law.boundary": 5000, "law.target-mass": 5000, "law.uniform-solid-mass": 3000,
-              "law.stacked": 8000, "law.component-height": 10000, "law.factors": 1500, "law.linkage": 500, "law.inverse": 100, "law.temperature": 300,
-              "hook:AxialExpansionChanger.axiallyExpandAssembly": 1500, "construction.expandColdDimsToHot": 20},
+    "quick": {"law.height": 1100, "law.contiguity": 1100, "law.grid": 1100, "law.boundary": 5500, "law.target-mass": 5500, "law.uniform-solid-mass": 4500,
+              "law.stacked": 10000, "law.component-height": 15000, "law.factors": 1100, "law.linkage": 1100, "law.inverse": 120, "law.temperature": 450,
+              "hook:AxialExpansionChanger.axiallyExpandAssembly": 1100, "construction.expandColdDimsToHot": 70},
     "thorough": {"law.height": 20000, "law.contiguity": 20000, "law.grid": 20000, "law.boundary": 60000, "law.target-mass": 60000, "law.uniform-solid-mass": 40000,
                  "law.stacked": 100000, "law.component-height": 120000, "law.factors": 20000, "law.linkage": 6000, "law.inverse": 1500, "law.temperature": 4000,
                  "hook:AxialExpansionChanger.axiallyExpandAssembly": 20000, "construction.expandColdDimsToHot": 300},
@@ -57,8 +57,8 @@ KNOWN_KEY = "target-mass/linked-below-nontarget-differential-growth"
 
 def plan(tier, seed):
     q = tier == "quick"
-    out = [{"name": "direct%d" % i, "kind": "direct", "n": 28 if q else 420} for i in range(9)]
-    out += [{"name": "bp%d" % i, "kind": "blueprint", "n": 7 if q else 100} for i in range(5)]
+    out = [{"name": "direct%d" % i, "kind": "direct", "n": 40 if q else 500} for i in range(9)]
+    out += [{"name": "bp%d" % i, "kind": "blueprint", "n": 10 if q else 120} for i in range(5)]
     out += [{"name": "ref%d" % i, "kind": "reference", "n": 5 if q else 70, "hot": bool(i % 2)} for i in range(2)]
     return out
 
@@ -322,8 +322,7 @@ def install_hook():
 
     def onerror(tok, exc, args, kw):
         a, s, meta = tok
-        meta.pop("objs", None)
-        ABORTED.append({"pre": s, "meta": meta, "exc": type(exc).__name__, "msg": str(exc)[:200]})
+        ABORTED.append({"pre": s, "meta": meta, "a": a, "exc": type(exc).__name__, "msg": str(exc)[:200]})
 
     hooks.wrap(AxialExpansionChanger, "axiallyExpandAssembly", pre=pre, post=post, onerror=onerror)
 
@@ -624,6 +623,28 @@ def pct(c, T):
     return c.material.linearExpansionPercent(Tc=T)
 
 
+def judge_negative_height_refusal(rec, a, ab, msg, w):
+    """ArithmeticError (negative block height): an allowed refusal when the change cannot be absorbed.  Which block went negative, and
+    could the change have been absorbed?  Read off the aborted execution's recorded factors."""
+    neg = [i for i, b in enumerate(a) if b.getHeight() < 0.0]
+    meta, pre = (ab[-1]["meta"], ab[-1]["pre"]) if ab else (None, None)
+    if meta is None or not neg:
+        rec.violation("refusal/negative-height-error-without-negative-block", "ArithmeticError raised but no block has a negative height / no execution observed", dict(w, error=msg))
+        return
+    fsets = [{meta["factors"].get(c["id"], 1.0) for c in b["comps"] if c["solid"]} for b in pre["blocks"][:-1]]
+    if all(len(fs) <= 1 for fs in fsets):
+        # every block grows by one factor: the stack below the top block becomes sum f_b*h_b; refusal is right only if that exceeds the assembly top
+        stack = sum(next(iter(fs or {1.0})) * b["gh"] for fs, b in zip(fsets, pre["blocks"][:-1]))
+        if neg != [len(pre["blocks"]) - 1] or stack <= pre["blocks"][-1]["zt"] - pre["blocks"][0]["zb"]:
+            rec.violation("refusal/absorbable-uniform-change-refused", "uniform growth to a stack of %r cm in an assembly of %r cm was refused (negative height in block %s)" % (stack, pre["blocks"][-1]["zt"], neg), dict(w, error=msg))
+            return
+        rec.reject("ArithmeticError: top block cannot absorb the growth (negative height; assembly discarded)")
+    elif neg[0] == len(pre["blocks"]) - 1:
+        rec.reject("ArithmeticError: top block cannot absorb the growth (negative height; assembly discarded)")
+    else:
+        rec.reject("ArithmeticError: negative height of an intermediate block under differential growth (its target is stacked on an offset component; assembly discarded)")
+
+
 class Driver:
     """Runs operations on one assembly, collects the hook's events, and judges them."""
 
@@ -646,13 +667,14 @@ class Driver:
         del ABORTED[n0a:]
         return evs, ab
 
-    def _refused(self, e, what, ab, expect_multi):
+    def _refused(self, e, what, ab, expect_multi, w_extra=None):
         """Classify an exception of a perform* call. Returns True when it was an allowed refusal."""
         rec = self.rec
         msg = str(e)
+        w_extra = w_extra or self.w
         if isinstance(e, ArithmeticError) and "negative height" in msg:
-            rec.reject("ArithmeticError: negative block height (change not absorbable; assembly discarded)")
             self.dead = True
+            judge_negative_height_refusal(rec, self.a, ab, msg, w_extra)
             return True
         if isinstance(e, RuntimeError) and "Multiple component axial linkages" in msg and expect_multi:
             rec.reject("RuntimeError: multiple axial linkages (documented rule agrees: blueprint error)")
@@ -686,7 +708,7 @@ class Driver:
             ch.performPrescribedAxialExpansion(a, list(comps), list(fs), setFuel=setFuel)
         except Exception as e:
             evs, ab = self._take_event(n0, n0a)
-            if not self._refused(e, "prescribed", ab, multi):
+            if not self._refused(e, "prescribed", ab, multi, w):
                 rec.crash("performPrescribedAxialExpansion", e, w)
                 self.dead = True
             return None
@@ -719,7 +741,7 @@ class Driver:
                 rec.reject("ValueError: a block holds no temperature grid point")
                 # components of lower blocks already carry new temperatures; the assembly stays usable (no axial change happened)
                 return None
-            if not self._refused(e, "thermal", ab, multi):
+            if not self._refused(e, "thermal", ab, multi, w):
                 rec.crash("performThermalAxialExpansion", e, w)
                 self.dead = True
             return None
@@ -886,8 +908,17 @@ def do_blueprint(spec, rec):
         try:
             r, cs, bp, _ = gen.build_reactor(text, {"inputHeightsConsideredHot": False, "detailedAxialExpansion": detailed})
         except Exception as e:
-            if ABORTED and isinstance(e, ArithmeticError):
-                rec.reject("ArithmeticError during construction")
+            multi = False
+            if isinstance(e, RuntimeError) and "Multiple component axial linkages" in str(e):
+                # legitimate only if the documented rule, evaluated on the same designs built directly, also finds a double link
+                try:
+                    multi = any(doc_multiple_links(build_direct(d)) for d in designs)
+                except Exception:
+                    multi = False
+            if multi:
+                rec.reject("RuntimeError: multiple axial linkages (documented rule agrees: blueprint error)")
+            elif isinstance(e, ArithmeticError) and "negative height" in str(e) and ABORTED:
+                judge_negative_height_refusal(rec, ABORTED[-1]["a"], ABORTED[-1:], str(e), dict(w, during="construction from blueprint"))
             else:
                 rec.crash("build-from-blueprint", e, dict(w, blueprint=text[:6000]))
             del EVENTS[:]
